@@ -759,6 +759,10 @@ def install(I):
             except Unsupported:
                 I.assumptions_used.add("sorted(): ordering of the result not modelled for this key kind (only permutation)")
             I.define(ax)
+            cache = I.__dict__.setdefault("_list_sets", {})
+            k_new = tuple(l.get_id() for l in core.tleaves(res))
+            cache[k_new] = SV(SET(ek), spec.mem)          # elements of sorted(S) are exactly S
+            cache[("keep", k_new)] = res
             return SV(k, res)
         if spec.mode == "seq":
             ek = spec.ekind
@@ -791,6 +795,19 @@ def install(I):
             except Unsupported:
                 I.assumptions_used.add("sorted(): ordering of the result not modelled for this key kind (only permutation)")
             I.define(ax)
+            if isinstance(src, SV) and src.kind.tag == "list":
+                try:
+                    keysort(ek)
+                    cache = I.__dict__.setdefault("_list_sets", {})
+                    k_old = tuple(l.get_id() for l in core.tleaves(src.tree))
+                    if k_old not in cache:
+                        cache[k_old] = I.to_set_value(None, SV(src.kind, src.tree))
+                        cache[("keep", k_old)] = src.tree
+                    k_new = tuple(l.get_id() for l in core.tleaves(res))
+                    cache[k_new] = cache[k_old]           # a permutation has the same elements
+                    cache[("keep", k_new)] = res
+                except TypeError:
+                    pass
             return SV(k, res)
         raise Unsupported("sorted(%r)" % (src,))
     I.sorted_model = sorted_model
@@ -1280,7 +1297,22 @@ def install(I):
         ek = recv.kind.args[0]
         v = I.coerce(I.tup_to_sv(args[0]), ek, what="list element")
         n = recv.tree[0]
-        yield None, I.store(st, recv.origin, SV(recv.kind, (n + 1, tstore(recv.tree[1], n, v.tree))))
+        newl = SV(recv.kind, (n + 1, tstore(recv.tree[1], n, v.tree)))
+        try:
+            ks = keysort(ek)
+        except TypeError:
+            ks = None
+        if ks is not None:
+            # element set of the extended list = element set of the old list + {x}  (keeps `y in xs` tests cheap)
+            cache = I.__dict__.setdefault("_list_sets", {})
+            k_old = tuple(l.get_id() for l in core.tleaves(recv.tree))
+            if k_old not in cache:
+                cache[k_old] = I.to_set_value(None, SV(recv.kind, recv.tree))
+                cache[("keep", k_old)] = recv.tree
+            k_new = tuple(l.get_id() for l in core.tleaves(newl.tree))
+            cache[k_new] = SV(SET(ek), z3.Store(cache[k_old].tree, to_key(ek, v.tree), TRUE))
+            cache[("keep", k_new)] = newl.tree
+        yield None, I.store(st, recv.origin, newl)
 
     @meth("list.extend")
     def _(I, st, recv, args, kw):
